@@ -79,11 +79,11 @@ Print Assumptions double_arm_drops_first.
 
 (* the deterministic scheduler used for the correspondence run only ever takes model steps, so everything above
    holds for every script the harness replays against the real io_service *)
-Theorem script_states_are_model_states : forall fuel r hi nfd ph bd, reach (ms (fst (run_script fuel r hi nfd ph bd))).
+Theorem script_states_are_model_states : forall fuel r hi al nfd ph bd, reach (ms (fst (run_script fuel r hi al nfd ph bd))).
 Proof. exact R_run_script. Qed.
 Print Assumptions script_states_are_model_states.
-Theorem script_at_most_once : forall fuel r hi nfd ph bd,
-  NoDup (log_toks (log (ms (fst (run_script fuel r hi nfd ph bd))))).
+Theorem script_at_most_once : forall fuel r hi al nfd ph bd,
+  NoDup (log_toks (log (ms (fst (run_script fuel r hi al nfd ph bd))))).
 Proof. intros. apply Cons_log_nodup, reach_Cons, R_run_script. Qed.
 Print Assumptions script_at_most_once.
 
